@@ -56,8 +56,35 @@ def parse_goal_output(text):
     invariants = None
     in_inv = False
     last = None
+    bound_key = None
     for line in text.splitlines():
         line = line.rstrip()
+        # tail bounds: "P(x >= a) <= minimum of" followed by indented "(k) bound" lines; "P(x > a) >= bound"
+        if line.startswith("P(") and line.endswith("minimum of") and "| n=" not in line:
+            bound_key = "P:" + line[: -len("minimum of")].strip().replace(" ", "")
+            goals[bound_key] = {"cf": None, "exact": None, "bounds": []}
+            last = bound_key
+            continue
+        if bound_key and re.match(r"^\s+\(\d+\) ", line):
+            expr = line.split(") ", 1)[1]
+            if "≅" not in expr:
+                try:
+                    goals[bound_key]["bounds"].append(canon_closed_form(None, pieces=[p.strip() for p in expr.split("; ")]))
+                except Exception as e:  # noqa
+                    goals[bound_key]["bounds"].append({"vals": [["!" + type(e).__name__], ["!"]], "free": []})
+            continue
+        if line.startswith("P(") and " >= " in line and "| n=" not in line and not line.endswith("minimum of"):
+            lhs, rhs = line.rsplit(" >= ", 1)
+            key = "P:" + lhs.replace(" ", "") + ">="
+            try:
+                goals[key] = {"cf": canon_closed_form(None, pieces=[p.strip() for p in rhs.split("; ")]), "exact": None}
+            except Exception as e:  # noqa
+                goals[key] = {"cf": {"vals": [["!" + type(e).__name__], ["!"]], "free": []}, "exact": None}
+            last = key
+            bound_key = None
+            continue
+        if line and not line.startswith(" "):
+            bound_key = bound_key if line.startswith(("Solution", "Assuming")) else None
         if "-   Invariants    -" in line:
             in_inv = True
             invariants = []
